@@ -251,7 +251,7 @@ def check_setup_parser(model: Model, report: Report, rule: str) -> None:
 def check(model: Model, report: Report) -> None:
     report.rule("R20.6", "option table: -q/--query (verbatim), -r/--query-file (text file), -f/--file (default stdin, read mode), -o/--output (default stdout, write mode), --pretty/--debug flags; -q and -r are required alternatives; main dispatches to handle_path_command")
     report.rule("R20.1", "every JSONPathError subclass raised at compile time, escaping compile(), is handled: one newline-terminated line on stderr, sys.exit(non-zero), nothing written to the output; re-raised only under --debug")
-    report.rule("R20.2", "same for json.load failures (JSONDecodeError, UnicodeDecodeError) and for every JSONPathError subclass raised at evaluation time")
+    report.rule("R20.2", "same for json.load failures (JSONDecodeError, UnicodeDecodeError, ValueError from the integer digit limit, RecursionError from deep nesting) and for every JSONPathError subclass raised at evaluation time")
     report.rule("R20.4", "on success the only write to the output sink is json.dump(compile(query).find(json.load(file)).values(), args.output, indent=INDENT if --pretty else None); no exit, nothing on stderr")
     report.rule("R20.5", "the query is taken verbatim from -q, or from the query file stripped")
     report.rule("R20.7", "the diagnostic is one line: no message of a JSONPathError the library constructs can contain LF/CR (lexer states path-sensitively; every other construction site by inference over the message expression: constants, !r, integers, enum names, function-name tokens)")
@@ -262,7 +262,7 @@ def check(model: Model, report: Report) -> None:
     from . import c13
 
     c13.report_escapes(model, report, "R20.8", "can escape compile()/find(): the CLI has no handler for it and prints a traceback instead of a one-line diagnostic")
-    report.assumptions += ["argparse behaviour and FileType handling are trusted", "json.load raises JSONDecodeError or UnicodeDecodeError for undecodable input (A1)"]
+    report.assumptions += ["argparse behaviour and FileType handling are trusted", "json.load raises JSONDecodeError, UnicodeDecodeError, ValueError (integer digit limit) or RecursionError (nesting depth) for input it cannot decode (A1)"]
     report.not_decided += ["FileType('w') truncating the output file before validation; broken pipes; argparse errors"]
     fn = model.func("cli.handle_path_command")
     site = fn.qualname
@@ -341,7 +341,9 @@ def check(model: Model, report: Report) -> None:
     cases: List[Tuple[str, str, str, str, str]] = []
     for q in all_classes:
         cases.append(("R20.1", f"compile:{q.split('.')[-1]}", q, "ok", "ok"))
-    for l in ("json.JSONDecodeError", "UnicodeDecodeError"):
+    # A1: json.load fails with JSONDecodeError (malformed text), UnicodeDecodeError (undecodable bytes), a plain
+    # ValueError (an integer with more digits than int() converts) or RecursionError (nesting beyond the interpreter's stack)
+    for l in ("json.JSONDecodeError", "UnicodeDecodeError", "ValueError", "RecursionError"):
         cases.append(("R20.2", f"load:{l}", "ok", l, "ok"))
     for q in sorted(eval_classes | {c for c in all_classes if c.split(".")[-1] in ("JSONPathRecursionError", "JSONPathTypeError")}):
         cases.append(("R20.2", f"evaluate:{q.split('.')[-1]}", "ok", "ok", q))
